@@ -1567,3 +1567,49 @@ def F13(p):
                         q.lines.insert(i + 1, Line(lex[k + 1:], "cont", 0, q.lines[i].fn))
                         return i
                     yield "name-on-next-line", ap2
+
+
+@op("K04", ("COMMENT_ON_INSTR", "PREPROC_CONSTANT", "TOO_MANY_VALS"), aux=True)
+def K04(p):
+    # a comment between two tokens of a directive (legal C; the tool's answer varies and may be fatal): family member only
+    for i, ln in enumerate(p.lines):
+        if ln.kind in ("include", "define", "ifndef") and not ln.info.get("guard"):
+            for k in range(1, len(ln.lex)):
+                if ln.lex[k].k != "sp" and ln.lex[k - 1].k == "sp":
+                    def ap(q, i=i, k=k):
+                        q.lines[i].lex[k:k] = [Lx("/* limit */", "cmt"), SP()]
+                        return i
+                    yield ln.kind, ap
+
+
+@op("P02b", "MACRO_FUNC_FORBIDDEN")
+def P02b(p):
+    # a function-like macro whose body stringifies / pastes its parameter
+    for i, ln in enumerate(p.lines):
+        if ln.kind == "define" and not ln.info.get("guard") and ln.info.get("value") in ("num", "neg", "chr", "none", "macro"):
+            for k, x in enumerate(ln.lex):
+                if "macro-def" in x.tags:
+                    for body in ("stringify", "paste"):
+                        def ap(q, i=i, k=k, body=body):
+                            lex = q.lines[i].lex
+                            del lex[k + 1:]
+                            lex += [Lx("(", "par"), Lx("arg", "id"), Lx(")", "par"), SP()]
+                            lex += [Lx("#", "hash"), Lx("arg", "id")] if body == "stringify" else [Lx("arg", "id"), Lx("##", "op"), Lx("_t", "id")]
+                            return i
+                        yield p.ftype + ":" + body, ap
+
+
+@op("X01c", "LINE_TOO_LONG")
+def X01c(p):
+    # a file-level comment line made 81..84 columns wide
+    for i, ln in enumerate(p.lines):
+        if ln.kind == "comment" and ln.fn < 0 and len(ln.lex) == 1:
+            t = ln.lex[0].t
+            if t.startswith("//") or (t.startswith("/*") and t.endswith("*/")) or t.startswith("**"):
+                def ap(q, i=i):
+                    x = q.lines[i].lex[0]
+                    w = vwidth(x.t)
+                    pad = "x" * (82 - w)
+                    x.t = x.t[:-2] + pad + "*/" if x.t.endswith("*/") else x.t + pad
+                    return i
+                yield "block" if t.startswith("/*") else "interior" if t.startswith("**") else "line", ap
